@@ -35,8 +35,9 @@ type Proxy struct {
 	// accepted connections so that this takes less data.
 	PauseUp      atomic.Bool
 	PauseDown    atomic.Bool // the same for the server->client direction (ServerRcvBuf for the proxy's socket towards the server)
-	ClientRcvBuf int
+	ClientRcvBuf int         // set before the first connection is made (the accept loop reads them)
 	ServerRcvBuf int
+	bufMu        sync.Mutex
 }
 
 // CutPlan cuts a connection after a number of bytes in one direction.
@@ -99,6 +100,13 @@ func NewProxy(target string) (*Proxy, error) {
 
 func (p *Proxy) Addr() string { return p.addr }
 
+// SetRcvBuf shrinks the receive buffers of connections made from now on.
+func (p *Proxy) SetRcvBuf(client, server int) {
+	p.bufMu.Lock()
+	p.ClientRcvBuf, p.ServerRcvBuf = client, server
+	p.bufMu.Unlock()
+}
+
 func (p *Proxy) SetTarget(t string) { p.mu.Lock(); p.target = t; p.mu.Unlock() }
 
 func (p *Proxy) loop(ln net.Listener) {
@@ -138,11 +146,14 @@ func (p *Proxy) serve(c net.Conn) {
 		c.Close()
 		return
 	}
-	if tc, ok := c.(*net.TCPConn); ok && p.ClientRcvBuf > 0 {
-		tc.SetReadBuffer(p.ClientRcvBuf)
+	p.bufMu.Lock()
+	crb, srb := p.ClientRcvBuf, p.ServerRcvBuf
+	p.bufMu.Unlock()
+	if tc, ok := c.(*net.TCPConn); ok && crb > 0 {
+		tc.SetReadBuffer(crb)
 	}
-	if tc, ok := s.(*net.TCPConn); ok && p.ServerRcvBuf > 0 {
-		tc.SetReadBuffer(p.ServerRcvBuf)
+	if tc, ok := s.(*net.TCPConn); ok && srb > 0 {
+		tc.SetReadBuffer(srb)
 	}
 	pc := &pconn{c: c, s: s}
 	p.mu.Lock()
